@@ -16,10 +16,18 @@
   Element names hold at full strength since /repo a32c6f4: `render_output` refuses
   (`MissingPrefix("")`) a no-namespace element inside the scope of a default-namespace declaration
   instead of writing it unprefixed (`C10_sound`, `C10_sound_refused`).
+
+  Second and third sentence (`C10_repair_*`, `C10_iter`): `create_missing_prefixes` (Model/Repair, as
+  rewritten in /repo afee7b1) on an element of any tree whose elements declare no prefix twice: only
+  namespace nodes change (`_frame`), every name of the subtree is then writable by the serialiser
+  (`_writable`, via the serialiser's own check `namesWritable`), the prefixes added are bound nowhere
+  in scope of the element nor declared in its subtree (`_fresh_prefixes`), a second call is the
+  identity (`_idem`).
 -/
 import XotModel.Lemmas.FStack
 import XotModel.Lemmas.Scope10
 import XotModel.Lemmas.TraceInv
+import XotModel.Lemmas.RepairDecls
 
 namespace XotModel.Props
 open XotModel
@@ -356,6 +364,117 @@ theorem C10_sound_tree_attribute (esc : Escapers) (env : Env) (pr : TokenParams)
   obtain ⟨⟨rel, hp, hinv⟩, _⟩ := genOutputs_trace esc env pr t start n inScope hat hs hu _ hx
   simp only [framesFor] at hp hinv
   exact ⟨rel, hp, fun hxr => (C10_sound_attribute env _ _ name pfx hinv hxr hpfx).1⟩
+
+/-! ## `create_missing_prefixes` (second and third sentence of the property) -/
+
+section Repair
+open XotModel.Repair
+
+/-- On an element the call is `create_missing_prefixes_for_element`. -/
+theorem C10_repair_element (env : Env) (t : Tree) (path : Path) (name : Nat) (ks : List Tree)
+    (hat : t.at? path = some (.node (.element name) ks)) :
+    createMissingPrefixes env t path = repairElement env t path := by
+  simp [createMissingPrefixes, hat, Tree.value, Value.isDocument, Value.isElement]
+
+/-- Anything that is neither a document nor an element is refused, a document without element
+    child too, and nothing changes (the result carries no tree). -/
+theorem C10_repair_refused (env : Env) (t : Tree) (path : Path) (node : Tree) (hat : t.at? path = some node) :
+    (node.value.isDocument = false → node.value.isElement = false →
+      createMissingPrefixes env t path = .err .notElement) ∧
+    (node.value.isDocument = true → elementKidIndices node.kids = [] →
+      createMissingPrefixes env t path = .err .noElementAtTopLevel) := by
+  constructor
+  · intro h1 h2; simp [createMissingPrefixes, hat, h1, h2]
+  · intro h1 h2; simp [createMissingPrefixes, hat, h1, h2]
+
+/-- FRAME: the call changes namespace nodes only — the tree without its namespace nodes (every
+    node's value, i.e. element names, attribute names and values, text, comments, PIs, and the
+    order of everything) is the same before and after; names and namespaces keep their ids. -/
+theorem C10_repair_frame (env : Env) (hok : EnvOk env) (t : Tree) (path : Path) (name : Nat)
+    (ks : List Tree) (hat : t.at? path = some (.node (.element name) ks))
+    (hu : UniqueBelow (.node (.element name) ks)) (env' : Env) (t' : Tree)
+    (h : createMissingPrefixes env t path = .ok (env', t')) :
+    stripNs t' = stripNs t ∧ env'.names = env.names ∧ env'.namespaces = env.namespaces := by
+  rw [C10_repair_element env t path name ks hat] at h
+  have hf := repairElement_facts env hok t path name ks hat hu env' t' h
+  exact ⟨facts_frame hat hf, hf.names, hf.namespaces⟩
+
+/-- WRITABLE: after the call the serialiser finds a usable prefix for every element and attribute
+    name of the subtree, and meets no no-namespace element under a default namespace:
+    `namesWritable` — the `MissingPrefix` checks of `render_output` run over the subtree with the
+    name stack `XmlSerializer::new` builds — answers `true`. -/
+theorem C10_repair_writable (env : Env) (hok : EnvOk env) (t : Tree) (path : Path) (name : Nat)
+    (ks : List Tree) (hat : t.at? path = some (.node (.element name) ks))
+    (hu : UniqueBelow (.node (.element name) ks)) (env' : Env) (t' : Tree)
+    (h : createMissingPrefixes env t path = .ok (env', t')) :
+    namesWritable env' t' path = some true := by
+  rw [C10_repair_element env t path name ks hat] at h
+  exact facts_writable hat (repairElement_facts env hok t path name ks hat hu env' t' h)
+
+/-- FRESH PREFIXES: the declarations of the repaired element after the call are its old ones plus
+    a list `nd` of new `(prefix, namespace)` pairs (plus `xmlns=""`, replacing its own default
+    declaration, when the element is in no namespace under a default namespace); the new prefixes
+    are pairwise different, not the empty prefix, bound NOWHERE in scope of the element and declared
+    NOWHERE in its subtree — so no binding that a name depends on is overridden or shadowed. -/
+theorem C10_repair_fresh_prefixes (env : Env) (hok : EnvOk env) (t : Tree) (path : Path) (name : Nat)
+    (ks : List Tree) (hat : t.at? path = some (.node (.element name) ks))
+    (hu : UniqueBelow (.node (.element name) ks)) (env' : Env) (t' : Tree)
+    (h : createMissingPrefixes env t path = .ok (env', t')) :
+    ∃ (nd : List (Nat × Nat)) (E' : Tree), t'.at? path = some E' ∧
+      (∀ q m, (q, m) ∈ E'.nsDecls ↔
+        if needsUndeclare env.nsOfName (inheritedDecls t path) (.node (.element name) ks) name = true then
+          (q ≠ Env.emptyPrefix ∧ ((q, m) ∈ (Tree.node (.element name) ks).nsDecls ∨ (q, m) ∈ nd)) ∨
+            (q = Env.emptyPrefix ∧ m = Env.noNamespace)
+        else (q, m) ∈ (Tree.node (.element name) ks).nsDecls ∨ (q, m) ∈ nd) ∧
+      (nd.map Prod.fst).Nodup ∧ (∀ d ∈ nd, d.1 ≠ Env.emptyPrefix) ∧
+      (∀ p ∈ nd.map Prod.fst, ∀ scope, namespacesInScope t path = some scope → p ∉ scope.map Prod.fst) ∧
+      (∀ p ∈ nd.map Prod.fst, ∀ rel y nm, (Tree.node (.element name) ks).at? rel = some y →
+        y.value = .element nm → p ∉ y.nsDecls.map Prod.fst) := by
+  rw [C10_repair_element env t path name ks hat] at h
+  have hf := repairElement_facts env hok t path name ks hat hu env' t' h
+  obtain ⟨nd, hat', _, h2, h3, h4, h5, _⟩ := hf.nd
+  refine ⟨nd, _, hat', ?_, h2, h3, ?_, h5⟩
+  · intro q m
+    exact mem_nsDecls_rebuild_top env.nsOfName nd name ks _ (uniqueBelow_self hu) h2
+      (fun p hp => h5 p hp [] _ name rfl rfl) q m
+  · intro p hp scope hs
+    have := h4 p hp
+    rwa [hs] at this
+
+/-- IDEMPOTENT: a second call returns the same tree and registers no prefix. -/
+theorem C10_repair_idem (env : Env) (hok : EnvOk env) (t : Tree) (path : Path) (name : Nat)
+    (ks : List Tree) (hat : t.at? path = some (.node (.element name) ks))
+    (hu : UniqueBelow (.node (.element name) ks)) (env' : Env) (t' : Tree)
+    (h : createMissingPrefixes env t path = .ok (env', t')) :
+    createMissingPrefixes env' t' path = .ok (env', t') := by
+  rw [C10_repair_element env t path name ks hat] at h
+  have hf := repairElement_facts env hok t path name ks hat hu env' t' h
+  obtain ⟨nd, hat', _⟩ := hf.nd
+  have hv : (rebuild env.nsOfName nd true (inheritedDecls t path) (.node (.element name) ks)).value =
+      .element name := by rw [value_rebuild]; rfl
+  generalize rebuild env.nsOfName nd true (inheritedDecls t path) (.node (.element name) ks) = E' at hat' hv
+  cases E' with
+  | node v' ks' =>
+    simp only [Tree.value] at hv
+    subst hv
+    rw [C10_repair_element env' t' path name ks' hat']
+    exact facts_idem hat hf
+
+/-- Non-vacuity: `<{ns2}a xmlns="ns3" {ns3}x="v"><b/><n0:c xmlns:n0="ns2"/></a>` (b in no namespace,
+    c in ns2): the element and the attribute get new prefixes (n0, id 5, is declared below, so n1 and
+    a newly registered n2 are used), `b` gets `xmlns=""`, and the result is writable. -/
+example :
+    let env : Env := ⟨[[], ['x'], ['u'], ['v']], [[], ['x','m','l'], ['p'], ['q'], ['r'], ['n','0'], ['n','1']],
+      [(['a'], 2), (['x'], 3), (['b'], 0), (['c'], 2)]⟩
+    let t : Tree := .node .document [.node (.element 0) [.node (.namespace 0 3) [], .node (.attribute 1 ['v']) [],
+      .node (.element 2) [], .node (.element 3) [.node (.namespace 5 2) []]]]
+    (match createMissingPrefixes env t [0] with
+      | .ok (env', t') => (env'.prefixes.length, (t'.at? [0]).map Tree.nsDecls,
+          (t'.at? [0, 4]).map Tree.nsDecls, namesWritable env t [0], namesWritable env' t' [0])
+      | _ => (0, none, none, none, none)) =
+    (8, some [(0, 3), (6, 2), (7, 3)], some [(0, 0)], some false, some true) := by decide
+
+end Repair
 
 /-- Non-vacuity: `<a xmlns:p="2"><p:b/></a>`-like scope — name 0 = `b` in namespace 2, prefix 5
     bound to it two frames up, an unrelated frame in between. -/
